@@ -643,6 +643,48 @@ class SymSet:
 
     __ror__ = __or__
 
+    # set algebra with another name set (SymSet or python set / list of names): membership is the boolean combination.
+    # The iteration universe stays that of the operand(s): every candidate is re-decided against the new predicate on iteration.
+    def __and__(self, o):
+        if not isinstance(o, (SymSet, set, frozenset)):
+            return NotImplemented
+        return SymSet(lambda t, a=self, b=o: z3.And(set_mem(a, t), set_mem(b, t)),
+                      universe=lambda a=self, b=o: list(a.universe()) + [x for x in _universe_of(b) if is_name(x)], label=f"({self.label}&{set_label(o)})")
+
+    __rand__ = __and__
+
+    def __sub__(self, o):
+        if not isinstance(o, (SymSet, set, frozenset)):
+            return NotImplemented
+        return SymSet(lambda t, a=self, b=o: z3.And(set_mem(a, t), z3.Not(set_mem(b, t))), universe=self.universe, label=f"({self.label}-{set_label(o)})")
+
+    def __rsub__(self, o):
+        if not isinstance(o, (set, frozenset)):
+            return NotImplemented
+        return SymSet(lambda t, a=o, b=self: z3.And(set_mem(a, t), z3.Not(set_mem(b, t))), universe=lambda a=o: [x for x in a if is_name(x)],
+                      label=f"({set_label(o)}-{self.label})")
+
+    def intersection(self, *others):
+        r = self
+        for o in others:
+            r = r & (o if isinstance(o, SymSet) else set(o))
+        return r
+
+    def union(self, *others):
+        r = self
+        for o in others:
+            r = r | o
+        return r
+
+    def difference(self, *others):
+        r = self
+        for o in others:
+            r = r - (o if isinstance(o, SymSet) else set(o))
+        return r
+
+    def copy(self):
+        return SymSet(self.mem, self.universe, self.label)
+
     def nonempty(self):
         return cur().branch(z3.Bool(cur().fresh_name(self.label + "_nonempty")))
 
@@ -854,7 +896,7 @@ REP_ATTRS = {
     "parameter": {"shape", "dtype", "device"},
     "tlogger": {"log_dir", "comment", "max_queue", "flush_secs", "filename_suffix"},
     "pylogger": {"name", "level"},
-    "module": {"_non_persistent_buffers_set"},
+    "module": {"_non_persistent_buffers_set", "_buffers"},
 }
 
 
@@ -966,6 +1008,12 @@ def kind_getattr(interp, k, name):
             return rep.state
     if kd == "pylogger" and name == "setLevel":
         return lambda level: None
+    if kd == "module":
+        # the representative is a leaf module (no children): its module tree is itself; a rebound buffer-set attribute is kept on the abstract value
+        if name == "modules":
+            return lambda _k=k: [_k]
+        if name == "_non_persistent_buffers_set" and "npbs" in p:
+            return p["npbs"]
     if name in REP_ATTRS.get(kd, ()):
         return getattr(rep, name)
     if name in ("__module__",):
@@ -1174,8 +1222,12 @@ def install(reg):
             if x.kind == "path":
                 return as_name(x.payload["p"])
             raise OutOfSubset(f"str() of a value of kind {x.kind}")
+        if isinstance(x, Sym) and x.is_bool:
+            return StrSym(z3.If(x.t, z3.StringVal("True"), z3.StringVal("False")))
+        if isinstance(x, Sym) and x.is_int:
+            return StrSym(z3.If(x.t >= 0, z3.IntToStr(x.t), z3.Concat(z3.StringVal("-"), z3.IntToStr(-x.t))))
         if isinstance(x, Sym):
-            raise OutOfSubset("str() of a symbolic number")
+            raise OutOfSubset("str() of a symbolic float")
         if contains_sym(x):
             return "<str of symbolic value>"
         return interp.native(str, x)
@@ -1246,6 +1298,25 @@ def install(reg):
     reg.contains_models[SymSet] = lambda interp, s, item: s.has(item) if is_name(item) else False
 
     reg.attr_models[Kind] = kind_getattr
+
+    def kind_setattr(interp, k, name, v):
+        if k.kind == "module" and name == "_non_persistent_buffers_set":
+            k.payload["npbs"] = v
+            return None
+        raise OutOfSubset(f"assignment to attribute {name!r} of a value of kind {k.kind}")
+
+    reg.setattr_models.setdefault(Kind, kind_setattr)
+    # torch: Module.modules() walks the REGISTERED submodules (_modules); an abstract object whose attributes were set through __dict__ has none
+    def m_module_getattr(interp, self_, name):
+        # torch: Module.__init__ creates empty _parameters / _buffers / _modules dicts; __getattr__ looks a missing name up in them
+        if isinstance(self_, Obj) and isinstance(name, str):
+            if name in ("_parameters", "_buffers", "_modules"):
+                return {}
+            raise RaiseSig(AttributeError(f"'{self_.cls.__name__}' object has no attribute '{name}'"))
+        raise OutOfSubset("torch.nn.Module.__getattr__ on an abstract value")
+
+    M[torch.nn.Module.__getattr__] = m_module_getattr
+    M[torch.nn.Module.modules] = lambda interp, self_: [self_] if isinstance(self_, (Obj, Kind)) else list(torch.nn.Module.modules(self_))
 
     def set_native(interp, base, key, v):
         try:
@@ -1490,6 +1561,33 @@ def install(reg):
 
     M[np.asarray] = m_asarray
     M[np.array] = m_asarray
+    M[np.asanyarray] = m_asarray
+
+    def _atleast(nd, what):
+        """numpy: ascontiguousarray / asfortranarray / require(..) / atleast_1d return an array with ndim >= 1 (atleast_2d/3d: >= 2/3):
+        a 0-d input comes back with shape (1,)*nd holding the same single element; an input that already has enough dimensions keeps
+        dtype, shape and contents (memory layout is not part of the abstract array)."""
+        def h(interp, x, dtype=None, **k):
+            if k and set(k) - {"like"}:
+                raise OutOfSubset(f"{what} keyword(s) {sorted(k)}")
+            a = m_asarray(interp, x, dtype=dtype) if not (isinstance(x, Kind) and x.kind == "ndarray" and dtype is None) else x
+            if not (isinstance(a, Kind) and a.kind == "ndarray"):
+                return interp.native(getattr(np, what), x) if dtype is None else interp.native(getattr(np, what), x, dtype)
+            p = a.payload
+            shape = tuple(p["shape"])
+            if len(shape) >= nd:
+                return mk_ndarray(p["dtype"], shape, p["data"], rep=p["rep"])
+            if what in ("atleast_2d", "atleast_3d") and len(shape) >= 1:
+                raise OutOfSubset(f"{what} of an abstract array with 0 < ndim < {nd}")
+            return mk_ndarray(p["dtype"], (1,) * nd, p["data"])
+        return h
+
+    M[np.ascontiguousarray] = _atleast(1, "ascontiguousarray")
+    M[np.asfortranarray] = _atleast(1, "asfortranarray")
+    _al1, _al2, _al3 = _atleast(1, "atleast_1d"), _atleast(2, "atleast_2d"), _atleast(3, "atleast_3d")
+    M[np.atleast_1d] = lambda interp, x: _al1(interp, x)
+    M[np.atleast_2d] = lambda interp, x: _al2(interp, x)
+    M[np.atleast_3d] = lambda interp, x: _al3(interp, x)
 
     def m_from_numpy(interp, x):
         if isinstance(x, Kind) and x.kind == "ndarray":
@@ -1505,6 +1603,9 @@ def install(reg):
     def c_path(interp, *a):
         if len(a) == 1 and is_strsym(a[0]):
             return Kind("path", rep=_rep("path"), p=as_name(a[0]))
+        if len(a) >= 1 and any(x is None or isinstance(x, (list, tuple, dict, set)) or (isinstance(x, Sym) and not is_strsym(x)) for x in a):
+            # pathlib: every component must be a str or an os.PathLike object
+            raise RaiseSig(TypeError("argument should be a str or an os.PathLike object where __fspath__ returns a str"))
         if contains_sym(a):
             raise OutOfSubset("Path() of abstract components")
         return interp.native(pathlib.Path, *a)
